@@ -14,7 +14,7 @@ def plan(prop, tier):
     flavours = ['asan', 'plain'] if q else ['asan', 'plain', 'msan', 'efence']
     shards = []
     n = 16 if q else 64
-    per = {'C04': 1200, 'C05': 1500, 'C09': 160}[prop] if q else {'C04': 30000, 'C05': 30000, 'C09': 4000}[prop]
+    per = {'C04': 1200, 'C05': 1500, 'C09': 160}[prop] if q else {'C04': 20000, 'C05': 20000, 'C09': 4000}[prop]
     for i in range(n):
         shards.append(('trees', SEED * 1000 + i, per))
     shards.append(('directed', 0, 0))
